@@ -90,7 +90,11 @@ def run_case(case):
             return res
 
     # script
-    long_history = rng.random() < 0.2           # many short calls with freshly built query objects
+    big_batch = rng.random() < 0.05
+    big_batch_at = rng.randrange(2)
+    if big_batch:
+        bump('parallel_batches_larger_than_cpu_count')
+    long_history = (not big_batch) and rng.random() < 0.2           # many short calls with freshly built query objects
     ncalls = rng.randint(8, 14) if long_history else rng.randint(2, 4)
     if long_history:
         bump('long_histories')
@@ -113,6 +117,13 @@ def run_case(case):
         else:
             keys = rng.sample(range(0, 60), len(idxs))
         multi = rng.random() < (0.1 if long_history else 0.4)
+        if big_batch and ci == big_batch_at:
+            # more queries in one parallel call than the machine has CPUs
+            import os as _os
+            nbig = (_os.cpu_count() or 4) + rng.randint(1, 6)
+            idxs = [rng.randrange(len(pool)) for _ in range(nbig)]
+            keys = rng.sample(range(0, 4 * nbig), nbig) if rng.random() < 0.5 else list(range(1, nbig + 1))
+            multi = True
         call = {'idxs': idxs, 'keys': keys, 'multi': multi}
         if rng.random() < 0.3:
             # a generous budget that never expires must not change anything
